@@ -75,7 +75,7 @@ func numBuild(c *numCase) (*numParser, error) {
 		t = reflect.PtrTo(namedNumTypes[c.Kind])
 	}
 	lx := numLexSingle
-	if c.Shape == "joined" || c.Shape == "joinedsp" {
+	if c.Shape == "joined" || c.Shape == "joinedsp" || c.Shape == "joined0" {
 		tag = "@(Sign Num)"
 		lx = numLexJoined
 	}
@@ -152,6 +152,9 @@ func numRun(args []string) error {
 			firstOff = 1 // one capture for all elements: its first token
 		}
 		switch c.Shape {
+		case "joined0":
+			input = c.S
+			firstOff = 0
 		case "joinedsp":
 			input = "  " + c.S[:1] + " \t " + c.S[1:] // elided tokens between the sign and the digits
 		case "multifirst":
